@@ -84,8 +84,14 @@ class C40(Prop):
         "after every copy and restrict_to_cells and the oracle checks the other object is "
         "unchanged. Theorems are over exact ring arithmetic; floating-point rounding is "
         "covered only by the 1e-9 comparison of the tie. FourthOrderTensor's optional "
-        "`other_fields` and the ndim/type checks of its constructor are not modelled; arrays "
-        "of one constructor call have equal length. The Q instance executed in the tie and the "
+        "`other_fields` ARE covered: modelled (extra per-cell lists with their basis matrices "
+        "carried through constructor/copy/restrict, C40_other_fields_copy_restrict), executed in "
+        "the tie, and every extra-field array is included in the in-place independence probes "
+        "after copy(), restrict_to_cells() and copy() of the restricted tensor (mutate result -> "
+        "original unchanged, mutate original -> result unchanged, np.shares_memory false); the "
+        "isotropic-formula and 9x9-symmetry theorems are for tensors without extra fields. The "
+        "ndim/type checks of the constructor are not modelled; arrays of one constructor call "
+        "have equal length. The Q instance executed in the tie and the "
         "ring of the theorems are instances of one polymorphic definition (instance "
         "independence trusted). copy()/restrict_to_cells() of a second-order tensor re-run the "
         "constructor's positivity tests (transcribed); the theorems about them are stated for "
@@ -100,13 +106,15 @@ class C40(Prop):
             "dyadic or rounded; axis permutations/reflections; general integer matrices), "
             "restrict_to_cells (repeated, negative and out-of-range indices, empty) and copy, "
             "each followed by in-place mutation probes; fourth-order: dyadic mu/lmbda of equal "
-            "or unequal length, restriction, copy; non-trivial = at least one cell and one "
+            "or unequal length, in half of the cases with 1-2 other_fields (sparse integer 9x9 "
+            "basis matrix + per-cell array), copy, restriction, copy of the restriction, all "
+            "arrays (values, mu, lmbda, extra fields) probed for aliasing; non-trivial = at least one cell and one "
             "operation")
     trusted = ["per-cell representation: values[i, j, c] <-> matrix of cell c (harness "
                "transposes the numpy layout)",
                "floats handed to the implementation are represented exactly; comparison "
                "|impl-model| <= 1e-9*(1+|model|) inside Coq on well-conditioned small data"]
-    assumptions = ["1-D parameter arrays of equal length", "other_fields is None"]
+    assumptions = ["1-D parameter arrays of equal length"]
 
     # -- generator ---------------------------------------------------------------------
     def _dy(self, rng, lo=-8, hi=8):
@@ -219,7 +227,20 @@ class C40(Prop):
         cells = [rng.randint(-nc, nc - 1) for _ in range(k)] if nc else []
         if rng.random() < 0.1:
             cells.append(rng.choice([nc, -nc - 1]))
-        return {"kind": "fourth", "mu": mu, "lmbda": la, "cells": cells}
+        case = {"kind": "fourth", "mu": mu, "lmbda": la, "cells": cells, "extra": []}
+        if rng.random() < 0.5:
+            # other_fields: 1-2 named per-cell arrays with a sparse 9x9 basis matrix each
+            for name in rng.sample(["phi", "kappa", "damage"], rng.choice([1, 1, 2])):
+                mat = [[0.0] * 9 for _ in range(9)]
+                symmetric = rng.random() < 0.8
+                for _ in range(rng.randint(1, 5)):
+                    i, j = rng.randrange(9), rng.randrange(9)
+                    v = float(rng.randint(-2, 2))
+                    mat[i][j] = v
+                    if symmetric:
+                        mat[j][i] = v
+                case["extra"].append([name, mat, [self._dy(rng) for _ in range(nc)]])
+        return case
 
     def generate(self, rng, n, tier):
         for _ in range(n):
@@ -284,29 +305,39 @@ class C40(Prop):
             return res
         mu = np.array(case["mu"], dtype=float)
         la = np.array(case["lmbda"], dtype=float)
+        names = [e[0] for e in case.get("extra", [])]
+        other = {e[0]: (np.array(e[1], dtype=float), np.array(e[2], dtype=float))
+                 for e in case.get("extra", [])} or None
+
+        def arrays(t):
+            return [t.values, t.mu, t.lmbda] + [getattr(t, n) for n in names]
 
         def dump(t):
             return ["val", [float(x) for x in t.mu], [float(x) for x in t.lmbda],
-                    cells_of(t.values)]
+                    cells_of(t.values), [[float(x) for x in getattr(t, n)] for n in names]]
         try:
-            t = pp.FourthOrderTensor(mu, la)
+            t = pp.FourthOrderTensor(mu, la, other)
         except ValueError:
             return {"t0": ["err", "ValueErr"], "restrict": None, "copy": None, "indep": []}
-        res = {"t0": dump(t), "restrict": None, "copy": None, "indep": []}
-        before = [t.values.copy(), t.mu.copy(), t.lmbda.copy()]
+        res = {"t0": dump(t), "restrict": None, "copy": None, "indep": [],
+               "params": list(t.constitutive_parameters)}
+        before = [a.copy() for a in arrays(t)]
+        # copy of the full tensor: independence of every array incl. the extra fields
+        c0 = t.copy()
+        res["copy0"] = dump(c0)
+        res["indep"].append(self._probe(arrays(t), arrays(c0)))
         try:
             r = t.restrict_to_cells(np.array(case["cells"], dtype=int))
         except IndexError:
             res["restrict"] = ["err", "IndexErr"]
-            res["indep"].append(all(np.array_equal(a, b) for a, b in
-                                    zip(before, [t.values, t.mu, t.lmbda])))
+            res["indep"].append(all(np.array_equal(a, b) for a, b in zip(before, arrays(t))))
             return res
         res["restrict"] = dump(r)
-        res["indep"].append(all(np.array_equal(a, b) for a, b in zip(before, [t.values, t.mu, t.lmbda]))
-                            and self._probe([t.values, t.mu, t.lmbda], [r.values, r.mu, r.lmbda]))
+        res["indep"].append(all(np.array_equal(a, b) for a, b in zip(before, arrays(t)))
+                            and self._probe(arrays(t), arrays(r)))
         c = r.copy()
         res["copy"] = dump(c)
-        res["indep"].append(self._probe([r.values, r.mu, r.lmbda], [c.values, c.mu, c.lmbda]))
+        res["indep"].append(self._probe(arrays(r), arrays(c)))
         res["copy_type"] = type(c).__name__
         return res
 
@@ -373,26 +404,43 @@ class C40(Prop):
             if len(case["mu"]) == len(case["lmbda"]):
                 return "constructor rejected arrays of equal length"
             return None
-        _, mu, la, vals = res["t0"]
+        _, mu, la, vals, xs = res["t0"]
+        extra = case.get("extra", [])
+        sym = all(np.array_equal(np.array(e[1]), np.array(e[1]).T) for e in extra)
         for c, (m, l, v) in enumerate(zip(mu, la, vals)):
             v = np.array(v)
-            if v.shape != (9, 9) or not np.array_equal(v, v.T):
+            if v.shape != (9, 9) or (sym and not np.array_equal(v, v.T)):
                 return f"fourth-order tensor is not a symmetric 9x9 matrix in cell {c}"
-            if not np.allclose(v, stiffness_reference(m, l), rtol=1e-12, atol=0):
-                return f"cell {c} is not the isotropic stiffness tensor of (mu, lmbda)"
+            ref = stiffness_reference(m, l)
+            for e in extra:
+                ref = ref + np.array(e[1]) * e[2][c]
+            if not np.allclose(v, ref, rtol=1e-12, atol=1e-12):
+                return f"cell {c} is not the stiffness tensor of its constitutive parameters"
+        for e, x in zip(extra, xs):
+            if x != e[2]:
+                return f"extra field {e[0]} is not stored as given"
         if any(i is False for i in res["indep"]):
-            return "restriction/copy shares data with the original (or changed it)"
+            which = ["copy", "restrict_to_cells", "copy of the restricted tensor"][
+                [i is False for i in res["indep"]].index(True)]
+            return (f"{which}: an array of the result (values, mu, lmbda or an extra field) "
+                    "shares data with the original (or the original changed)")
+        if res["copy0"][1:] != res["t0"][1:]:
+            return "copy differs from the original"
         n = len(mu)
         r = res["restrict"]
         if r[0] == "err":
             if all(-n <= c < n for c in case["cells"]):
                 return "restrict_to_cells with valid cells raised " + r[1]
             return None
+        if len(r[1]) != len(case["cells"]) or len(r[3]) != len(case["cells"]) or any(
+                len(x) != len(case["cells"]) for x in r[4]):
+            return "restriction returned a wrong number of cells"
         for k, c in enumerate(case["cells"]):
             if r[1][k] != mu[c] or r[2][k] != la[c] or r[3][k] != vals[c]:
                 return f"restricted cell {k} is not cell {c} of the original"
-        if len(r[1]) != len(case["cells"]) or len(r[3]) != len(case["cells"]):
-            return "restriction returned a wrong number of cells"
+            for e, x, xr in zip(extra, xs, r[4]):
+                if xr[k] != x[c]:
+                    return f"restricted extra field {e[0]}[{k}] is not cell {c} of the original"
         if res["copy"][1:] != r[1:]:
             return "copy differs from the original"
         return None
@@ -403,11 +451,14 @@ class C40(Prop):
             return f"(IVal {clist(o[1], cm33)})"
         return f"(IErr {o[1]})"
 
-    def _t4(self, o):
+    def _t4(self, o, extra=False):
         if o is None:
             return "(IErr ValueErr)"
         if o[0] == "val":
             m99 = lambda m: clist(m, lambda r: clist(r, cq))
+            if extra:
+                return (f"(IVal ({clist(o[1], cq)}, {clist(o[2], cq)}, "
+                        f"{clist(o[4], lambda f: clist(f, cq))}, {clist(o[3], m99)}))")
             return f"(IVal ({clist(o[1], cq)}, {clist(o[2], cq)}, {clist(o[3], m99)}))"
         return f"(IErr {o[1]})"
 
@@ -425,6 +476,16 @@ class C40(Prop):
                                                  for k in ("kyy", "kzz", "kxy", "kxz", "kyz")])
             return (f"agree_second {args} {clist(case['ops'], self._op)} {self._t2(res['t0'])} "
                     f"{clist(res['outs'], self._t2)}")
+        extra = case.get("extra", [])
+        if extra:
+            m99 = lambda m: clist(m, lambda r: clist(r, cq))
+            head = (f"agree_fourth_x {ql(case['mu'])} {ql(case['lmbda'])} "
+                    f"{clist([e[1] for e in extra], m99)} {clist([e[2] for e in extra], ql)} "
+                    f"{clist(case['cells'], cz)}")
+            if res["t0"][0] != "val":
+                return f"{head} {self._t4(res['t0'])} (IErr ValueErr) (IErr ValueErr)"
+            return (f"{head} {self._t4(res['t0'], True)} {self._t4(res['restrict'], True)} "
+                    f"{self._t4(res['copy'], True)}")
         if res["t0"][0] != "val":
             return (f"agree_fourth {ql(case['mu'])} {ql(case['lmbda'])} {clist(case['cells'], cz)} "
                     f"{self._t4(res['t0'])} (IErr ValueErr) (IErr ValueErr)")
